@@ -380,11 +380,41 @@ def allDistinct : List Obj → Bool
     `C13.elabField_flatten` -/
 def flatRegion (tm : TypeMap) (fs : FieldSp) : Bool :=
   fs.mode == .ann && isUnionTree fs.ty && leavesOk tm fs.ty && allDistinct (flatObjs tm fs.ty)
-  && (match fs.dflt with | .none => true | _ => false)
+  && (match fs.dflt with | .none => true | .eq v _ => eqDefault v | .eqF _ _ => true | _ => false)
 
-/-- documented meaning there: the flattened AnyOf; optional iff `None` is one of the flattened alternatives or the
-    name is listed in `_optional` -/
-def flatMeaning (fs : FieldSp) : FieldRes :=
-  .field (.anyOf (flatAlts fs.ty)) (!((flatAlts fs.ty).any isNoneF || fs.inOptional)) none
+/-- the declaration such an annotation stands for: the AnyOf of the flattened alternatives -/
+def flatDecl (fs : FieldSp) : FieldDecl := .anyOf (flatAlts fs.ty)
+
+/-- optional iff `None` is one of the flattened alternatives or the name is listed in `_optional` -/
+def flatOptional (fs : FieldSp) : Bool := (flatAlts fs.ty).any isNoneF || fs.inOptional
+
+/-- documented meaning there (same shape as `fieldMeaning`): the default, if any, must be valid for the flattened
+    AnyOf; required iff there is no default and the field is not optional -/
+def flatMeaning (O : Oracles) (fs : FieldSp) : R FieldRes :=
+  match fs.dflt.value with
+  | Option.none => .ok (.field (flatDecl fs) (!flatOptional fs) Option.none)
+  | some (v, stored) =>
+    bindE (tryDefault O (flatDecl fs) v) fun _ => .ok (eqResult (flatDecl fs) (flatOptional fs) stored)
+
+/-- the union of the two proved regions, and the documented meaning on it -/
+def fieldRegionX (O : Oracles) (tm : TypeMap) (sc : Scope) (future : Bool) (fs : FieldSp) : Bool :=
+  (flatRegion tm fs && stringOk sc future fs) || fieldSupportedAt O tm sc future fs
+
+def fieldMeaningX (O : Oracles) (tm : TypeMap) (fs : FieldSp) : R FieldRes :=
+  if flatRegion tm fs then flatMeaning O fs else fieldMeaning O fs
+
+def classRegionX (O : Oracles) (tm : TypeMap) (c : ClassSp) : Bool :=
+  c.fields.all (fieldRegionX O tm c.scope c.future)
+
+/-- the same field in two declarations of the (extended) region: same name, same documented meaning - e.g.
+    `Union[Union[a, b], None]`, `a' | b' | None`, `Optional[Union[a, b']]` … with each leaf in any of its spellings -/
+structure FieldSameX (O : Oracles) (tm : TypeMap) (a b : FieldSp) : Prop where
+  name : a.name = b.name
+  meaning : fieldMeaningX O tm a = fieldMeaningX O tm b
+
+inductive ClassSameX (O : Oracles) (tm : TypeMap) : List FieldSp → List FieldSp → Prop where
+  | nil : ClassSameX O tm [] []
+  | cons {a b : FieldSp} {as bs : List FieldSp} :
+      FieldSameX O tm a b → ClassSameX O tm as bs → ClassSameX O tm (a :: as) (b :: bs)
 
 end Typedpy.Elab
